@@ -374,6 +374,12 @@ func runC01Batch(e *core.Env, g Graph, cases []c01case, tag string) {
 		fmt.Fprintf(&b, "  v%d: %s\n", i, d)
 	}
 	profile := b.String()
+	// the text of the module against the Coq model of the whole generator (not while other goroutines draw names)
+	if !strings.HasPrefix(tag, "cc") {
+		if tcFor(e).check("C01 batch "+tag, profile) {
+			res.Count("whole-module-text=equal")
+		}
+	}
 	out, err := pkg.Validate(profile, data, false, nil)
 	if err != nil {
 		// find the offending formula
@@ -532,7 +538,7 @@ func truthGraph(k int) Graph {
 // C01: skeleton x truth-assignment stream, quantifier stream, atom stream, random deep formulas.
 func C01(e *core.Env) {
 	res := e.Res
-	res.Rule = "cases = (formula, graph); every target node of the graph is a truth assignment / value configuration and its verdict is compared with the extracted model (parser + failure DNF + atom snippets) and with the classical semantics; " +
+	res.Rule = "cases = (formula, graph); every target node of the graph is a truth assignment / value configuration and its verdict is compared with the extracted model (parser + failure DNF + atom snippets) and with the classical semantics; the text of the module generated for every batch (outside the concurrent stream) is compared byte for byte with the Coq model of the whole generator (Elab.compile, whose branches C01_text_branches_report_the_failing_nodes is about); " +
 		"streams: skeleton (all formulas with <= 2 (quick) / <= 3 (thorough) connectives over 3 single-valued atoms, count and `in` flavours, x all 8 assignments), quantifier (nested/atLeast/atMost, k=0..3, under not/or/if, nested in each other; several quantified constraints under different keys of ONE propertyConstraints mapping, plain and under not / if), " +
 		"atom (every documented constraint kind x value sets of size 0..2 x both polarities; two constraints of one kind - e.g. two property-pair comparisons on one node - under or / and / if / or-not), random (depth <= 5 / 7, width <= 4), while-others-compile (random and quantifier formulas validated in small batches while three goroutines translate another profile), history (12 random formulas written over the built-in prefix `core` instead of a declared prefix, validated before and after another profile that rebinds core / data / doc / shacl / apiContract / ex was compiled and run); non-trivial = the formula reports at least one target node and spares at least one; distinct by formula text"
 
@@ -1024,6 +1030,7 @@ func C01(e *core.Env) {
 		nwg.Wait()
 	}
 	res.Note(fmt.Sprintf("while-others-compile stream: %.1fs", time.Since(t0).Seconds()))
+	res.Note(tcFor(e).summary())
 
 	keys := []string{}
 	for k := range res.Distribution {
